@@ -196,7 +196,18 @@ def check_dmig(form, mtype, r, c, pattern, vclass, rs, res):
                 M[i, j] = complex(v, vals[(k + 2) % len(vals)] if mtype == 4 else 0.5 * (k + 1)) if cplx else v
                 k += 1
     rows = sorted(ROWSETS[rs][:r], key=lambda x: 10 * x[0] + x[1])
-    if form in (1, 6):
+    herm = form == 11
+    if herm:
+        # Hermitian but not symmetric complex square matrix: must be treated as a general (form 1) matrix
+        if r != c or not cplx:
+            return [], None
+        M = np.tril(M) + np.tril(M, -1).conj().T
+        M[np.diag_indices(r)] = M.diagonal().real
+        if np.allclose(M.T, M):
+            return [], None
+        form = 1
+        cols = rows
+    elif form in (1, 6):
         if r != c:
             return [], None
         cols = rows
@@ -343,12 +354,51 @@ def check_coords(res):
     return msgs
 
 
+def check_coord_values(res):
+    """every number of a CORD2x card survives wtcoordcards -> rdcards to the precision of the 16.8e field, for
+    points whose components span many decades (far origins with small offsets)"""
+    from pyyeti.nastran import bulk
+
+    msgs = []
+    mags = [1.0, 2.5e-4, 3.0e5, -7.0e-9, 4.0e8, -1.5e-3, 6.0, 8.0e-6, -2.0e2]
+    for name, typ in (("CORD2R", 1), ("CORD2C", 2), ("CORD2S", 3)):
+        for rot in range(9):
+            abc = np.array([mags[(rot + i) % 9] for i in range(9)]).reshape(3, 3)
+            for scale in (1.0, 1e3):
+                abc2 = abc * scale
+                cid = 10 + rot
+                ci = {cid: [name, np.vstack(([cid, typ, 0], abc2))]}
+                f = S()
+                try:
+                    bulk.wtcoordcards(f, ci)
+                    got = bulk.rdcards(back(f), name.lower(), return_var="list")
+                except Exception as e:  # noqa
+                    msgs.append("wtcoordcards/rdcards raised %r for %s" % (e, abc2.tolist()))
+                    continue
+                res.ev("coordvalues/%s" % name)
+                vals = [v for v in got[0] if v != "" and not isinstance(v, str)] if got else []
+                if len(vals) != 11 or vals[0] != cid or vals[1] != 0:
+                    msgs.append("CORD2 card read back as %s" % (vals,))
+                    continue
+                w = abc2.ravel()
+                g = np.array(vals[2:], float)
+                bad = np.abs(g - w) > 6e-9 * np.abs(w)
+                # values below 1e-15 of the largest are documented noise and may be written as zero
+                bad &= ~((g == 0) & (np.abs(w) < 1e-14 * np.abs(w).max()))
+                if bad.any():
+                    i = int(np.nonzero(bad)[0][0])
+                    msgs.append("%s card: value %r of point %s was read back as %r (card written from %s)" % (name, w[i], "ABC"[i // 3], g[i], abc2.tolist()))
+    return msgs
+
+
 # ------------------------------------------------------------------ driver
 def shards(tier, seed):
     out = [dict(part="ids", lo=i, step=16, tier=tier) for i in range(16)]
     out.append(dict(part="tables", tier=tier))
-    for form in (1, 2, 6, 9):
+    for form in (1, 2, 6, 9, 11):
         for mtype in (1, 2, 3, 4):
+            if form == 11 and mtype < 3:
+                continue
             out.append(dict(part="dmig", form=form, mtype=mtype, tier=tier))
     out.append(dict(part="grids", tier=tier))
     out.append(dict(part="coords", tier=tier))
@@ -358,7 +408,7 @@ def shards(tier, seed):
 
 def dmig_cases(form, tier):
     out = []
-    shapes = [(1, 1), (2, 2), (3, 3)] if form in (1, 6) else ([(1, 2), (2, 1), (2, 3), (3, 2), (1, 3), (3, 1)] if form == 2 else [(1, 1), (2, 1), (2, 2), (3, 2), (2, 3), (3, 3)])
+    shapes = [(1, 1), (2, 2), (3, 3)] if form in (1, 6, 11) else ([(1, 2), (2, 1), (2, 3), (3, 2), (1, 3), (3, 1)] if form == 2 else [(1, 1), (2, 1), (2, 2), (3, 2), (2, 3), (3, 3)])
     for r, c in shapes:
         n = r * c
         step = 1 if (n < 9 or tier != "quick") else 5
@@ -405,7 +455,7 @@ def run_shard(sh):
             res.viol(dict(part="grids"), m, kind="grid-" + m.split("(")[0])
         res.sample(dict(part="grids"))
     else:
-        for m in check_coords(res):
+        for m in check_coords(res) + check_coord_values(res):
             res.viol(dict(part="coords"), m, kind="coords-" + m.split(":")[0][:40])
         res.sample(dict(part="coords"))
     return res
@@ -422,4 +472,4 @@ def replay(case):
         return check_dmig(case["form"], case["mtype"], case["r"], case["c"], case["pattern"], case["vclass"], case["rs"], res)[0]
     if p == "grids":
         return check_grids(res)
-    return check_coords(res)
+    return check_coords(res) + check_coord_values(res)
